@@ -17,6 +17,7 @@ type evalEnv struct {
 	old   *State
 	bound map[string]string // quantified variables
 	pol   int               // polarity with which the formula is asserted: +1 assumption, -1 negated goal, 0 unknown
+	guard string            // range conditions of enclosing quantifiers already instantiated at ground terms
 }
 
 type evalError struct{ msg string }
@@ -192,7 +193,7 @@ func (e *evalEnv) loadAt(addr string, t types.Type) *Val {
 	save, saveReach := e.fr.st, e.fr.reach
 	e.fr.st = e.st
 	v := e.fr.load(addr, t)
-	if e.fr.vc.noDefine == 0 && len(e.bound) == 0 {
+	if e.fr.vc.noDefine == 0 && e.boundGround() {
 		// Go's type-safety invariant holds for every value read from the heap
 		e.fr.reach = tTrue
 		e.fr.loadAssume(addr, t, v)
@@ -256,17 +257,26 @@ func (e *evalEnv) eval(n *Node) *Val {
 			return bval(and(rng, body))
 		}
 		// a real quantifier: the body must be a closed term (no named abbreviations)
-		if n.Kind == "forall" && e.pol == +1 && vc.noDefine == 0 && len(e.bound) == 0 {
+		if n.Kind == "forall" && e.pol == +1 && vc.noDefine == 0 && e.boundGround() {
 			// remember the hypothesis so that it can be instantiated at the skolem
 			// constants of later goals (the quantifier-free pass needs the instances)
 			hn, hscope, hst, hold, hfr := n, e.scope, e.st, e.old, e.fr
 			hlets := vc.curLets
+			hbound := map[string]string{}
+			for k, v := range e.bound {
+				hbound[k] = v
+			}
+			hguard := e.guard
 			vc.hyps = append(vc.hyps, func(at string) {
 				saveLets := vc.curLets
 				vc.curLets = hlets
 				saveReach, saveSt := hfr.reach, hfr.st
 				vc.specDepth++
-				env := &evalEnv{fr: hfr, scope: hscope, st: hst, old: hold, bound: map[string]string{hn.Name: at}, pol: +1}
+				b2 := map[string]string{hn.Name: at}
+				for k, v := range hbound {
+					b2[k] = v
+				}
+				env := &evalEnv{fr: hfr, scope: hscope, st: hst, old: hold, bound: b2, pol: +1, guard: hguard}
 				func() {
 					defer func() {
 						if r := recover(); r != nil {
@@ -279,8 +289,9 @@ func (e *evalEnv) eval(n *Node) *Val {
 					l := env.intOf(env.eval(hn.Args[0]))
 					h := env.intOf(env.eval(hn.Args[1]))
 					env.pol = +1
+					env.guard = and(hguard, le(l, at), lt(at, h))
 					b := env.eval(hn.Args[2]).L[0]
-					vc.cmd("(assert " + imp(and(le(l, at), lt(at, h)), b) + ")")
+					vc.cmd("(assert " + imp(env.guard, b) + ")")
 				}()
 				vc.specDepth--
 				hfr.reach, hfr.st = saveReach, saveSt
@@ -823,6 +834,26 @@ func (e *evalEnv) call(n *Node) *Val {
 		// the string was produced by fmt.Sprintf from the given constant format
 		s, f := e.eval(args[0]), e.eval(args[1])
 		return bval(eq(sel(fr.vc.strFmtArray(), s.L[0]), f.L[0]))
+	case "tainted":
+		// byte j of x is marked secret in the ghost taint map (information-flow mode)
+		x := e.eval(args[0])
+		j := e.intOf(e.eval(args[1]))
+		if !fr.vc.taint {
+			return bval(tFalse)
+		}
+		return bval(fr.vc.read(e.st, taintLeaf, add(x.L[0], j)))
+	case "untainted":
+		// no byte of x is secret
+		src := fmt.Sprintf("forall jt in 0..len(%s): !tainted(%s, jt)", nodeText(args[0]), nodeText(args[0]))
+		n, err := parseSpec(src)
+		if err != nil {
+			e.fail("untainted: %v", err)
+		}
+		return e.eval(n)
+	case "heapobj":
+		// the slice is nil or lies outside the static data area (constants, package-level variables)
+		x := e.eval(args[0])
+		return bval(or(eq(x.L[0], "0"), ge(x.L[0], intLit(staticEnd))))
 	case "separate":
 		// the capacity ranges of two slices do not overlap
 		a, b := e.eval(args[0]), e.eval(args[1])
@@ -961,4 +992,14 @@ func (fr *Frame) intCandidates() []string {
 		}
 	}
 	return out
+}
+
+// boundGround: every enclosing quantified variable has been replaced by a ground term.
+func (e *evalEnv) boundGround() bool {
+	for _, v := range e.bound {
+		if strings.HasPrefix(v, "q_") {
+			return false
+		}
+	}
+	return true
 }
